@@ -14,10 +14,17 @@ Open Scope string_scope.
 Open Scope list_scope.
 
 (* ---------- files NGINX reads, as the Manager names them ---------- *)
-Inductive fk := FMain | FConf | FStream | FTls.
+(* FSecret: a secret file that a configuration file on disk names by its literal path (NGINX reads it
+   when it loads the configuration: MGMT licence / client certificate / trusted CA, every TLS
+   secret when -ssl-dynamic-reload is off).  FLazy: a secret file no configuration file names
+   literally (referenced through $secret_dir_path and loaded per handshake, or not referenced at
+   all): writing it is not a change that needs a reload. *)
+Inductive fk := FMain | FConf | FStream | FTls | FSecret | FLazy.
 
 Definition fkey (k : fk) (name : string) : string :=
-  (match k with FMain => "m:" | FConf => "c:" | FStream => "s:" | FTls => "t:" end ++ name)%string.
+  (match k with FMain => "m:" | FConf => "c:" | FStream => "s:" | FTls => "t:" | FSecret | FLazy => "x:" end ++ name)%string.
+
+Definition needs_reload (k : fk) : bool := match k with FLazy => false | _ => true end.
 
 Inductive ev :=
 | EWrite (k : fk) (name : string) (changed : bool)   (* Create*Config; changed = content differs from the file *)
@@ -54,7 +61,10 @@ Inductive op :=
 | OReloadForBatch (flag : bool)                (* ReloadForBatchUpdates *)
 | OUpdateVSs (rs : list res) (dels : list string)   (* UpdateVirtualServers *)
 | OUpdateTSs (rs : list res) (dels : list string)   (* UpdateTransportServers *)
-| OBatchDelete (k : rk) (names : list string). (* BatchDeleteVirtualServers / BatchDeleteIngresses *)
+| OBatchDelete (k : rk) (names : list string)  (* BatchDeleteVirtualServers / BatchDeleteIngresses *)
+| OSecret (eager : bool) (name : string) (ver : Z)  (* AddOrUpdateSpecialTLSSecrets / LicenseSecret / CASecret /
+                                                     MGMTClientAuthSecret: write one secret file, never reload *)
+| OReload.                                     (* the public Reload(): what the controller calls after a special Secret *)
 
 Inductive err := ENone | EReloadFailed.
 
@@ -90,8 +100,9 @@ Definition set_enabled (b : bool) (s : cst) : cst :=
 Definition do_write (k : fk) (name : string) (ver : Z) (s : cst) : cst * list ev :=
   let key := fkey k name in
   let ch := match lookup key (files s) with Some v => negb (Z.eqb v ver) | None => true end in
-  (if ch then {| enabled := enabled s; files := insert key ver (files s); loaded := loaded s;
-                 dirty := true; nrel := nrel s; napi := napi s |}
+  (if ch then {| enabled := enabled s; files := insert key ver (files s);
+                 loaded := if needs_reload k then loaded s else insert key ver (loaded s);
+                 dirty := dirty s || needs_reload k; nrel := nrel s; napi := napi s |}
    else s, [EWrite k name ch]).
 
 Definition do_delete (k : fk) (name : string) (s : cst) : cst * list ev :=
@@ -146,7 +157,7 @@ Fixpoint do_writes (rs : list res) (s : cst) : cst * list ev :=
   end.
 
 Definition ev_changed (x : ev) : bool :=
-  match x with EWrite _ _ c => c | EDelete _ _ c => c | _ => false end.
+  match x with EWrite k _ c => c && needs_reload k | EDelete _ _ c => c | _ => false end.
 
 Fixpoint do_deletes (k : fk) (names : list string) (s : cst) : cst * list ev :=
   match names with
@@ -222,6 +233,10 @@ Definition step (e : env) (s : cst) (o : op) : cst * out :=
   | OBatchDelete k names =>
       let '(s1, l1) := do_deletes (fk_of k) names s in
       finish_reload e false s1 l1
+  | OSecret eager name ver =>
+      let '(s1, l1) := do_write (if eager then FSecret else FLazy) name ver s in
+      (s1, {| log := l1; oerr := ENone |})
+  | OReload => finish_reload e false s []
   end.
 
 (* a history of operations; outputs in order *)
@@ -252,7 +267,7 @@ Fixpoint held_scan (h : bool) (t : list ev) : option bool :=
 Fixpoint pend_scan (p : bool) (t : list ev) : bool :=
   match t with
   | [] => p
-  | EWrite _ _ c :: r => pend_scan (p || c) r
+  | EWrite k _ c :: r => pend_scan (p || c && needs_reload k) r
   | EDelete _ _ c :: r => pend_scan (p || c) r
   | EReload _ true :: r => pend_scan false r
   | _ :: r => pend_scan p r
@@ -272,7 +287,7 @@ Definition applied (plus_endp : bool) (l : list ev) : bool :=
 Definition is_gate (o : op) : bool := match o with OEnable | ODisable => true | _ => false end.
 Definition is_endp (o : op) : bool := match o with OEndpoints _ _ => true | _ => false end.
 Definition skips (o : op) : bool :=
-  match o with ODelete KTS _ _ => false | ODelete _ _ sk => sk | OReloadForBatch f => negb f | _ => false end.
+  match o with ODelete KTS _ _ => false | ODelete _ _ sk => sk | OReloadForBatch f => negb f | OSecret _ _ _ => true | _ => false end.
 Definition has_weights (o : op) : bool :=
   match o with OAdd r => match r_kind r with KVS => (0 <? r_weights r)%nat | _ => false end | _ => false end.
 (* the operation switches reloads on by itself (F15; never once repaired) *)
@@ -295,6 +310,7 @@ Record task := {
                               the deletion of an object that is already gone: the error is only logged) *)
   t_all_reports : bool;    (* updateAllConfigs has something to report an error on: a resource, or the
                               ConfigMap together with the GlobalConfiguration *)
+  t_all_pre : list op;     (* the secret files updateAllConfigs rewrites first (MGMT licence, CA, client certificate) *)
   t_mainver : Z;           (* what updateAllConfigs would generate now: main config ... *)
   t_all : list res         (* ... and every resource *)
 }.
@@ -318,7 +334,7 @@ Record sout := {
 (* syncEndpointSlices only logs the error of UpdateEndpoints*; every other handler reports the
    error of its operation on the resource (event + status) when the resource still exists *)
 Definition reports (e : env) (t : task) : bool :=
-  match t_kind t with TEndpointSlice => fx_endprep (fx e) | TConfigMap => t_all_reports t | TOther => t_reports t end.
+  match t_kind t with TEndpointSlice => fx_endprep (fx e) && t_reports t | TConfigMap => t_all_reports t | TOther => t_reports t end.
 
 (* handler work: every operation's error is reported by the handler on the resources it concerns *)
 Fixpoint run_work (e : env) (s : cst) (os : list op) : cst * list ev * bool :=
@@ -331,8 +347,9 @@ Fixpoint run_work (e : env) (s : cst) (os : list op) : cst * list ev * bool :=
   end.
 
 Definition update_all (e : env) (t : task) (s : cst) : cst * list ev * bool :=
-  let '(s1, x) := step e s (OUpdateConfig (t_mainver t) (t_all t)) in
-  (s1, log x, match oerr x with ENone => false | _ => true end).
+  let '(s0, l0, f0) := run_work e s (t_all_pre t) in
+  let '(s1, x) := step e s0 (OUpdateConfig (t_mainver t) (t_all t)) in
+  (s1, l0 ++ log x, f0 || match oerr x with ENone => false | _ => true end).
 
 Definition is_endp_task (k : tkind) : bool := match k with TEndpointSlice => true | _ => false end.
 Definition is_cm_task (k : tkind) : bool := match k with TConfigMap => true | _ => false end.
